@@ -239,6 +239,28 @@ theorem setElevation_eq_pyramid_level (fs : Bool) (fuel : Nat) (s : Nat) (b x1 y
     rw [List.getElem?_eq_none (by omega), List.getElem?_eq_none (by simp; omega)]
     rfl
 
+/-- **setElevation_eq_pyramid_whole**: the unproved equation holds in full when the whole map is selected (repaired
+code; any size, base and request) -/
+theorem setElevation_eq_pyramid_whole (s : Nat) (b e : Int) (m' : Map) (hs : 0 < s)
+    (h : setElevation true (elevFuel (flat s b)) (flat s b) e (0 : Nat) (0 : Nat) (some ((s - 1 : Nat) : Int))
+      (some ((s - 1 : Nat) : Int)) = .ok m') :
+    m'.tiles.map (·.elevation) = pyramid s b e (0 : Nat) (0 : Nat) ((s - 1 : Nat) : Int) ((s - 1 : Nat) : Int) := by
+  have hwf : WF (flat s b) := wf_resetIndices s _ (by simp)
+  have hlen : m'.tiles.length = s * s := by
+    rw [(only_elevations_change _ _ _ _ _ _ _ _ _ hwf h).2.2.1]; simp [flat, resetIndices]
+  have hp := setElevation_eq_pyramid_partial s b e 0 0 (s - 1) (s - 1) m' (by omega) (by omega) (by omega) (by omega) h
+  apply List.ext_getElem?
+  intro k
+  by_cases hk : k < s * s
+  · have hx : k % s < s := Nat.mod_lt _ hs
+    have hy : k / s < s := Nat.div_lt_of_lt_mul hk
+    have hkk : k % s + k / s * s = k := by rw [Nat.mul_comm]; exact Nat.mod_add_div k s
+    have := hp (k % s) (k / s) (Nat.zero_le _) (Nat.le_sub_one_of_lt hx) (Nat.zero_le _) (Nat.le_sub_one_of_lt hy)
+    rw [hkk] at this
+    rw [List.getElem?_map]
+    exact this
+  · rw [List.getElem?_eq_none (by simp; omega), List.getElem?_eq_none (by simp [pyramid]; omega)]
+
 /-- non-vacuity of `setElevation_eq_pyramid_level`: the call returns on a flat 3×3 map of elevation 2 -/
 example : ((setElevation true (elevFuel (flat 3 2)) (flat 3 2) 2 0 0 (some 1) (some 1)).map
     (fun m => m.tiles.map (·.elevation))) = .ok (pyramid 3 2 2 0 0 1 1) := by decide +kernel
